@@ -14,7 +14,7 @@ from .. import windows, model, progs
 
 rs = bootstrap()
 
-KEYS = ['mod:%d', 'kt:%d', 'ks:%d', 'kbig:%d', 'kf:%d', 'kmix:%d', 'kneg:%d', 'kmers:%d', 'ktneg:%d', 'knp:%d', 'kcent:%d', 'kobj:%d', 'kcls:%d']
+KEYS = ['mod:%d', 'kt:%d', 'ks:%d', 'kbig:%d', 'kf:%d', 'kmix:%d', 'kneg:%d', 'kmers:%d', 'ktneg:%d', 'knp:%d', 'kcent:%d', 'kobj:%d', 'kcls:%d', 'ksloppy:%d']
 
 
 def expected_groups(xs, keyf):
@@ -33,7 +33,7 @@ class C04(Check):
     RULE += PRELUDE_RULE
     ASSUMPTIONS = ['keys are hashable and == is an equivalence on them (NaN / unhashable keys are outside the statement)']
     ANCHORS = ['rxsci/operators/group_by.py', 'rxsci/operators/multiplex.py', 'rxsci/state/memory_store.py']
-    REQUIRED_TAGS = ['consumer-runs-a-pipeline-built-with-the-same-operator-object', 'top', 'group', 'roll', 'roll_eq', 'split', 'key=kt', 'key=ks', 'key=kbig', 'key=kf', 'key=kmix', 'key=kneg', 'key=kmers', 'key=ktneg', 'key=knp', 'key=kcent', 'key=kobj', 'key=kcls', 'equal-items-different-keys', 'over-65536-keys', 'a-parent-slot-re-created-over-65536-times', 'per-item', 'to_list',
+    REQUIRED_TAGS = ['consumer-runs-a-pipeline-built-with-the-same-operator-object', 'top', 'group', 'roll', 'roll_eq', 'split', 'key=kt', 'key=ks', 'key=kbig', 'key=kf', 'key=kmix', 'key=kneg', 'key=kmers', 'key=ktneg', 'key=knp', 'key=kcent', 'key=kobj', 'key=kcls', 'key=ksloppy', 'equal-items-different-keys', 'over-65536-keys', 'a-parent-slot-re-created-over-65536-times', 'per-item', 'to_list',
                      'many-keys', 'empty', 'over-256-keys'] + ['operator-object-used-in-two-pipelines'] + ['history-fed-more-than-the-judged-stream'] + PRELUDE_TAGS + ['prelude:overlap']
     REQUIRED_OBSERVED = ['child_lifetimes_checked', 'parent_lifetimes_checked', 'groups_flushed_at_completion']
 
